@@ -67,7 +67,7 @@ def strategy(tier):
     emit = st.fixed_dictionaries(
         {
             "k": st.just("emit"),
-            "file": st.sampled_from(files),
+            "file": common.source_strategy(files),
             "level": st.sampled_from([1, 2, 3, 4]),
             "lseed": st.integers(0, 2**31 - 1),
             "tabs": st.booleans(),
@@ -78,7 +78,7 @@ def strategy(tier):
     cli = st.fixed_dictionaries(
         {
             "k": st.just("cli"),
-            "file": st.sampled_from(small),
+            "file": common.source_strategy(small),
             "level": st.sampled_from([0, 1, 2, 3]),
             "lseed": st.integers(0, 2**31 - 1),
             "tabs": st.booleans(),
